@@ -1,12 +1,13 @@
 (* C20.v — property C20: synthetic sensor data agree with their own ground truth.
    Only statements, each closed by `exact`-style glue, each followed by Print Assumptions.
+   (continued in C20_any_length.v: every trajectory length, re-integration; C20_fixed.v: magnetometer clause after the repair;
+   C20_thorough.v: other sampling rates)
    All statements are about the regenerated model of Sensors(...) (constructor + generate(), the module-level random
    generator replaced by a stream of symbolic draws) on a generic three-row trajectory at 100 Hz. *)
 From Coq Require Import Reals List Lra.
 From AhrsLib Require Import Base Rot.
 From AhrsGen Require Import C20gen_R.
-From AhrsProps Require Import C20_spec C20_acc C20_mag C20_magnorm C20_gyro_rad C20_gyro_deg C20_gyro_rad_50 C20_gyro_rad_333 C20_gyro_deg_333
-  C20_repr C20_rand C20_firstorder C20_euler.
+From AhrsProps Require Import C20_spec C20_acc C20_mag C20_magnorm C20_gyro_rad C20_gyro_deg C20_repr C20_rand C20_firstorder C20_euler.
 Import ListNotations.
 Open Scope R_scope.
 
@@ -101,24 +102,6 @@ Proof.
   - exact rate_first_order.
 Qed.
 Print Assumptions C20_gyro_first_order.
-
-(* the same at the other traced sampling rates: dt = 1/freq enters only through  rate dt  (freq = 50 and 333 Hz, radians;
-   333 Hz, degrees).  Stated for the general noise level; the zero-noise rows follow as in C20_gyro_first_order *)
-Theorem C20_gyro_other_rates : forall q0w q0x q0y q0z q1w q1x q1y q1z q2w q2x q2y q2z,
-  unit4 q0w q0x q0y q0z -> unit4 q1w q1x q1y q1z -> unit4 q2w q2x q2y q2z ->
-  forall sg sm m0 m1 m2 u0 u1 u2 ng00 ng01 ng02 ng10 ng11 ng12 ng20 ng21 ng22,
-  let q0 := [q0w;q0x;q0y;q0z] in let q1 := [q1w;q1x;q1y;q1z] in let q2 := [q2w;q2x;q2y;q2z] in
-  let rad dt := let w1 := rate dt q0 q1 in let w2 := rate dt q1 q2 in let b := bias_rad dt q0 q1 q2 u0 u1 u2 in
-    Val ((add3 (add3 [0;0;0] b) (scale3 (sg * d2r) [ng00;ng01;ng02]) ++ add3 (add3 w1 b) (scale3 (sg * d2r) [ng10;ng11;ng12]) ++
-          add3 (add3 w2 b) (scale3 (sg * d2r) [ng20;ng21;ng22])) ++ b ++ ([0;0;0] ++ w1 ++ w2)) in
-  let deg dt := let w1 := rate dt q0 q1 in let w2 := rate dt q1 q2 in let b := bias_deg dt q0 q1 q2 u0 u1 u2 in
-    Val ((add3 (add3 [0;0;0] b) (scale3 sg [ng00;ng01;ng02]) ++ add3 (add3 (scale3 r2d w1) b) (scale3 sg [ng10;ng11;ng12]) ++
-          add3 (add3 (scale3 r2d w2) b) (scale3 sg [ng20;ng21;ng22])) ++ b ++ ([0;0;0] ++ w1 ++ w2)) in
-  C20_gyro_rad_50_R q0w q0x q0y q0z q1w q1x q1y q1z q2w q2x q2y q2z sg sm m0 m1 m2 u0 u1 u2 ng00 ng01 ng02 ng10 ng11 ng12 ng20 ng21 ng22 = rad (1 / 50) /\
-  C20_gyro_rad_333_R q0w q0x q0y q0z q1w q1x q1y q1z q2w q2x q2y q2z sg sm m0 m1 m2 u0 u1 u2 ng00 ng01 ng02 ng10 ng11 ng12 ng20 ng21 ng22 = rad (1 / 333) /\
-  C20_gyro_deg_333_R q0w q0x q0y q0z q1w q1x q1y q1z q2w q2x q2y q2z sg sm m0 m1 m2 u0 u1 u2 ng00 ng01 ng02 ng10 ng11 ng12 ng20 ng21 ng22 = deg (1 / 333).
-Proof. intros. split; [apply gyro_rad_50_spec|split; [apply gyro_rad_333_spec|apply gyro_deg_333_spec]]; assumption. Qed.
-Print Assumptions C20_gyro_other_rates.
 
 (* rotations, quaternions and angular positions of a given trajectory are images of the same rows: the matrices are the
    textbook matrices of the quaternions (proper rotations) and, away from gimbal lock, equal Rz(yaw) Ry(pitch) Rx(roll) of the
